@@ -15,7 +15,7 @@ ASSUMPTIONS = [
 ]
 
 HOOK_COMMITS = ["aa112f6"]
-FIX_COMMITS = ["536bdea", "2163003", "086d718", "eebbb00", "ae8746e", "813750d", "4dcfce1", "affca7a", "6634824", "7638f19", "8a1300b", "fe98d51", "caf36c4"]
+FIX_COMMITS = ["536bdea", "2163003", "086d718", "eebbb00", "ae8746e", "813750d", "4dcfce1", "affca7a", "6634824", "7638f19", "8a1300b", "fe98d51", "caf36c4", "e4b64f7", "0c686df", "48a484d"]
 NOT_YET = {}
 
 CFG = {
@@ -53,6 +53,13 @@ CFG = {
         "level_note": "Trusted: Lean kernel, Mathlib, hand-written model validated by the correspondence run; parry QBVH box containment assumed (node boxes contain their children); rounding not analysed.",
         "files": ["src/geom2/polyline2.rs", "src/geom2/line2.rs", "src/geom2/curve2.rs"],
         "tol": {"*": 1e-9, "ray.intersections": 1e-7, "ray.param": 1e-6},
+    },
+    "C11": {
+        "cases": {"quick": 1600, "thorough": 160000},
+        "level_text": "Theorems (ℝ) about the model: circle-circle intersections lie on both circles and their number matches the configuration (none for separate / nested / concentric, finite always); tangent points lie on the circle with the tangent perpendicular to the radius for every d > r (acos), with the asin counter-example as pre-fix witness; line-circle points lie on both; the three-point circle is equidistant from its points; circle bounding box tight. Arc bounding boxes and sweep clauses validated by dense sampling. Model tied to the Rust by a differential run with exact-grid tangencies.",
+        "level_note": "Trusted: Lean kernel, Mathlib, hand-written model validated by the correspondence run; arc-box containment/tightness and the sweep-sign clauses are validated, not proved (partial); rounding not analysed.",
+        "files": ["src/geom2/circle2.rs", "src/geom2/aabb2.rs", "src/geom2/line2.rs", "src/geom2/angles2.rs"],
+        "tol": {"*": 1e-9, "circle.cc": 1e-6, "circle.segment": 1e-6, "circle.three": 1e-7, "circle.tangent": 1e-6},
     },
     "C12": {
         "cases": {"quick": 1600, "thorough": 160000},
